@@ -109,16 +109,32 @@ impl BlobFile {
 struct BlobFileList { m: Vec<BlobFile> }
 impl BlobFileList {
     uninterp spec fn view(&self) -> Map<u64, BlobFile>;
-    /// contract of BlobFileList::prune_dead (its body uses extract_if; obligation C09.3 covers is_dead): exactly the dead
-    /// files leave the list and are returned
+    /// HashMap::extract_if(|_, v| f(v)).map(|(_, v)| v).collect() (R23'): every entry is visited once; the entries the predicate
+    /// accepts leave the map and are returned, the others stay untouched
     #[verifier::external_body]
-    fn prune_dead(&mut self, gc_stats: &FragmentationMap) -> (r: Vec<BlobFile>)
+    fn extract_values_if<F: Fn(&BlobFile) -> bool>(&mut self, f: F) -> (r: Vec<BlobFile>)
+        requires forall|x: BlobFile| call_requires(f, (&x,)),
+        ensures
+            forall|id: u64| #[trigger] final(self).view().contains_key(id) ==> old(self).view().contains_key(id) && final(self).view()[id] == old(self).view()[id]
+                && call_ensures(f, (&old(self).view()[id],), false),
+            forall|i: int| 0 <= i < r@.len() ==> old(self).view().contains_key((#[trigger] r@[i]).0.id) && old(self).view()[r@[i].0.id] == r@[i]
+                && call_ensures(f, (&r@[i],), true) && !final(self).view().contains_key(r@[i].0.id),
+            forall|id: u64| #[trigger] old(self).view().contains_key(id) ==> final(self).view().contains_key(id) || exists|i: int| 0 <= i < r@.len() && #[trigger] r@[i].0.id == id,
+    { unimplemented!() }
+//@ FROM src/version/blob_file_list.rs :: impl BlobFileList :: fn prune_dead :: OBL C09.14, C20.9
+//@ SUBST `self . 0 . extract_if ( | _ , blob_file | $1 ) . map ( | ( _ , v ) | v ) . collect ( )` ==> `self.extract_values_if(|blob_file: &BlobFile| -> (b: bool) ensures b == is_dead_spec(*blob_file, gc_stats.view()) { $1 })`
+// (the closure's contract is part of the rewrite so that it survives any change of the closure body)
+    fn prune_dead(&mut self, gc_stats: &FragmentationMap) -> /*+*/(r:/*-*/ Vec<BlobFile>/*+*/)
+        // C09.14: exactly the dead files leave the list and are returned; the others stay as they are
         ensures
             forall|id: u64| #[trigger] final(self).view().contains_key(id) <==> old(self).view().contains_key(id) && !is_dead_spec(old(self).view()[id], gc_stats.view()),
             forall|id: u64| final(self).view().contains_key(id) ==> #[trigger] final(self).view()[id] == old(self).view()[id],
             forall|i: int| 0 <= i < r@.len() ==> old(self).view().contains_key((#[trigger] r@[i]).0.id) && is_dead_spec(r@[i], gc_stats.view()) && old(self).view()[r@[i].0.id] == r@[i],
             forall|id: u64| old(self).view().contains_key(id) && is_dead_spec(old(self).view()[id], gc_stats.view()) ==> exists|i: int| 0 <= i < r@.len() && #[trigger] r@[i].0.id == id,
-    { unimplemented!() }
+    /*-*/ {
+        self.extract_values_if(|blob_file: &BlobFile| -> (b: bool) ensures b == is_dead_spec(*blob_file, gc_stats.view()) { blob_file.is_dead(gc_stats) })
+    }
+//@ END
 }
 impl Clone for BlobFileList {
     #[verifier::external_body]
